@@ -29,6 +29,16 @@ type concProg struct {
 	NilSent   int
 	Total     int
 	ConsFirst bool
+	// LateCons: the channel is filled (everything fits into the buffer) and
+	// closed before the first consumer starts
+	LateCons bool
+	// DeepThread: a spawned call that overflows the frame stack; wait() must
+	// hand back its error
+	DeepThread bool
+	// Quiet: the consumers collect what they receive in a tight loop and report
+	// it only after their loop has ended (no host call between two receives);
+	// receive timestamps are then meaningless and the FIFO model is not consulted
+	Quiet bool
 }
 
 func valueOf(id, seq int) int { return (id+1)*100000 + seq }
@@ -63,19 +73,64 @@ func genConc(g *sim.Stream, tier string) *concProg {
 		p.M = append(p.M, m)
 		p.Total += m
 		p.SendForm = append(p.SendForm, g.Intn(2))
-		p.PSpawn = append(p.PSpawn, g.Intn(7))
+		p.PSpawn = append(p.PSpawn, g.Intn(9))
 	}
 	for i := 0; i < p.R; i++ {
 		p.RecvForm = append(p.RecvForm, g.Intn(4))
 		p.CSpawn = append(p.CSpawn, g.Intn(3))
 	}
+	lateOdds := 5
+	if raceBuild {
+		// only real parallelism can make two ranging consumers collide on the
+		// last buffered value of a closed channel: favour that shape in phase R
+		lateOdds = 2
+	}
+	if !p.MainRecv && p.Cap >= 2 && g.Chance(1, lateOdds) {
+		if raceBuild {
+			for p.R < 4 {
+				p.R++
+				p.RecvForm = append(p.RecvForm, g.Intn(2))
+				p.CSpawn = append(p.CSpawn, g.Intn(3))
+			}
+		}
+		// everything must fit into the buffer: shrink the message counts
+		p.LateCons = true
+		p.Total = 0
+		left := p.Cap
+		for i := range p.M {
+			m := 1
+			if left-(p.S-i) > 0 {
+				m = 1 + g.Intn(left-(p.S-i)+1)
+			}
+			if m > left-(p.S-1-i) {
+				m = left - (p.S - 1 - i)
+			}
+			if m < 1 {
+				m = 1
+			}
+			p.M[i] = m
+			left -= m
+			p.Total += m
+		}
+		if p.Total > p.Cap {
+			p.LateCons = false // (more senders than slots)
+		}
+		p.ConsFirst = false
+		if p.LateCons && (raceBuild || g.Bool()) {
+			p.Quiet = true
+			for i := range p.RecvForm {
+				p.RecvForm[i] = 4 + g.Intn(2)
+			}
+		}
+	}
+	p.DeepThread = g.Chance(1, 5)
 	allRange := !p.MainRecv
 	for _, f := range p.RecvForm {
-		if f > 1 {
+		if f == 2 || f == 3 {
 			allRange = false
 		}
 	}
-	if allRange && g.Chance(1, 3) {
+	if allRange && !p.LateCons && g.Chance(1, 3) {
 		p.NilEvery = 1 + g.Intn(3)
 		for _, m := range p.M {
 			p.NilSent += m / p.NilEvery
@@ -107,13 +162,23 @@ func genConc(g *sim.Stream, tier string) *concProg {
 		w("}")
 		w("func gproducer%d(id, n) { producer%d(id, n); pdone <- id }", form, form)
 	}
-	w("func consumer0(rid) { k := 0; rinv(rid); for _, v := range c { if v == nil { gotnil(rid) } else { emit(rid, v); k++ }; rinv(rid) }; rend(rid); return k }")
-	w("func consumer1(rid) { k := 0; rinv(rid); for v in c { if v == nil { gotnil(rid) } else { emit(rid, v); k++ }; rinv(rid) }; rend(rid); return k }")
+	// consumers pass a gate first; it is open from the start, except in the
+	// late-consumer shape, where main opens it once all consumers exist, so
+	// that they set upon the full, closed channel together
+	w("gate := chan()")
+	if !p.LateCons {
+		w("close(gate)")
+	}
+	w("func consumer0(rid) { <-gate; k := 0; rinv(rid); for _, v := range c { if v == nil { gotnil(rid) } else { emit(rid, v); k++ }; rinv(rid) }; rend(rid); return k }")
+	w("func consumer1(rid) { <-gate; k := 0; rinv(rid); for v in c { if v == nil { gotnil(rid) } else { emit(rid, v); k++ }; rinv(rid) }; rend(rid); return k }")
 	// closures made from ONE function literal, each with its own captured tag
 	w("func mkp(tag, form) { return func(id, n) { ptag(id, tag); if form == 0 { return producer0(id, n) }; return producer1(id, n) } }")
-	w("func consumer2(rid) { k := 0; for { rinv(rid); v := <-c; if v == nil { rend(rid); break }; emit(rid, v); k++ }; return k }")
-	w("func consumer3(rid) { k := 0; for { rinv(rid); v := c.receive(); if v == nil { rend(rid); break }; emit(rid, v); k++ }; return k }")
-	for form := 0; form < 4; form++ {
+	w("func consumer2(rid) { <-gate; k := 0; for { rinv(rid); v := <-c; if v == nil { rend(rid); break }; emit(rid, v); k++ }; return k }")
+	w("func consumer3(rid) { <-gate; k := 0; for { rinv(rid); v := c.receive(); if v == nil { rend(rid); break }; emit(rid, v); k++ }; return k }")
+	w("func report(rid, vals) { k := 0; rinv(rid); for _, v := range vals { if v == nil { gotnil(rid) } else { emit(rid, v); k++ }; rinv(rid) }; rend(rid); return k }")
+	w("func consumer4(rid) { <-gate; vals := []; for _, v := range c { vals.append(v) }; return report(rid, vals) }")
+	w("func consumer5(rid) { <-gate; vals := []; for v in c { vals.append(v) }; return report(rid, vals) }")
+	for form := 0; form < 6; form++ {
 		w("func gconsumer%d(rid) { consumer%d(rid); cdone <- rid }", form, form)
 	}
 	// a launcher with more than eight locals whose goroutine closes over the
@@ -124,6 +189,7 @@ func genConc(g *sim.Stream, tier string) *concProg {
 	w("  go func() { if lform == 0 { producer0(myid, myn) } else { producer1(myid, myn) }; r := myid + (a9 - a9); pdone <- r }()")
 	w("}")
 	w("pts := []")
+	w("bts := []")
 	w("cts := []")
 	w("pid := -1")
 	w("n := -1")
@@ -163,6 +229,28 @@ func genConc(g *sim.Stream, tier string) *concProg {
 				w("pts.append([pid, spawn(cl%d, pid, n)])", i)
 			case 5:
 				w("launch(pid, n, %d)", p.SendForm[i])
+			case 7, 8:
+				// the spawn target is a builtin that calls back into script code:
+				// list.each over the sequence numbers, the callback sends
+				w("vals%d := []", i)
+				w("for k := 0; k < n; k++ { vals%d.append(k) }", i)
+				w("eid%d := pid", i)
+				w("en%d := n", i)
+				w("pstart(pid, n)")
+				send := "c <- v"
+				if p.SendForm[i] == 1 {
+					send = "c.send(v)"
+				}
+				nilPart := ""
+				if p.NilEvery > 0 {
+					nilPart = fmt.Sprintf("if (k + 1) %% %d == 0 { c <- nil; nilsent(eid%d) }; ", p.NilEvery, i)
+				}
+				cb := fmt.Sprintf("func(k) { v := (eid%d+1)*100000 + k; sinv(eid%d, k); %s; sent(eid%d, k); %sif k == en%d-1 { pdone <- eid%d } }", i, i, send, i, nilPart, i, i)
+				if p.PSpawn[i] == 7 {
+					w("bts.append(spawn(vals%d.each, %s))", i, cb)
+				} else {
+					w("go vals%d.each(%s)", i, cb)
+				}
 			case 6:
 				// a starter thread that spawns the producer and returns at once:
 				// the producer outlives the thread that started it
@@ -178,15 +266,18 @@ func genConc(g *sim.Stream, tier string) *concProg {
 		spawnProd()
 	} else {
 		spawnProd()
-		spawnCons()
+		if !p.LateCons {
+			spawnCons()
+		}
 	}
 	if p.MainRecv {
 		w("for i := 0; i < %d; i++ { rinv(99); v := <-c; emit(99, v) }", p.Total)
 	}
 	w("for _, pt := range pts { waited(0, pt[0], pt[1].wait()) }")
+	w("for _, bt := range bts { bt.wait() }")
 	ngo := 0
 	for _, f := range p.PSpawn {
-		if f == 2 || f == 5 {
+		if f == 2 || f == 5 || f == 7 || f == 8 {
 			ngo++
 		}
 	}
@@ -197,6 +288,11 @@ func genConc(g *sim.Stream, tier string) *concProg {
 		w("cinv(); c.close(); closed()")
 	} else {
 		w("cinv(); close(c); closed()")
+	}
+	if p.LateCons {
+		// only now, with the channel full and closed, do the consumers start
+		spawnCons()
+		w("close(gate)")
 	}
 	w("for _, ct := range cts { waited(1, ct[0], ct[1].wait()) }")
 	ngo = 0
@@ -236,7 +332,15 @@ func genConc(g *sim.Stream, tier string) *concProg {
 		w("tv := spawn(func(k) { return soft(k) }, 4)")
 	}
 	w("rv := try(func() { return tv.wait() }, func(e) { return \"raised:\" + string(e) })")
-	w("[ra, re, type(rv), string(rv)]")
+	if p.DeepThread {
+		// a spawned call that dies of a frame-stack overflow: wait() reports it
+		w("func rec(k) { return rec(k+1) + 1 }")
+		w("tp := spawn(rec, 0)")
+		w("rp := try(func() { return tp.wait() }, func(e) { return \"caught-overflow\" })")
+		w("[ra, re, type(rv), string(rv), rp]")
+	} else {
+		w("[ra, re, type(rv), string(rv)]")
+	}
 	p.Src = b.String()
 	return p
 }
@@ -379,6 +483,15 @@ func runC10(rc *fw.RunCtx) {
 	}
 	rc.Count("stuck_after_shutdown", len(stuck))
 	rc.Hit("verdict_" + verdict.String())
+	if prog.LateCons {
+		rc.Hit("shape_late_consumers")
+	}
+	if prog.Quiet {
+		rc.Hit("shape_quiet_consumers")
+	}
+	if prog.DeepThread {
+		rc.Hit("shape_deep_thread")
+	}
 	rc.Sample = map[string]any{
 		"program":  prog.Src,
 		"schedule": s.RenderTrace(60),
@@ -549,7 +662,7 @@ func runC10(rc *fw.RunCtx) {
 			forms[f] = true
 		}
 		locus := "recv"
-		if (forms[0] || forms[1]) && prog.R >= 2 {
+		if (forms[0] || forms[1] || forms[4] || forms[5]) && prog.R >= 2 {
 			locus = "range,receivers>=2"
 		}
 		rc.Violate("conservation/"+locus, "lost=%v duplicated=%v (sent %d values, received %d)", lost, dup, len(sendOrder), len(recvs))
@@ -602,7 +715,7 @@ func runC10(rc *fw.RunCtx) {
 	}
 	// 5. wait() values
 	for i := 0; i < prog.S; i++ {
-		if prog.PSpawn[i] != 2 && prog.PSpawn[i] != 5 {
+		if prog.PSpawn[i] != 2 && prog.PSpawn[i] != 5 && prog.PSpawn[i] != 7 && prog.PSpawn[i] != 8 {
 			if v, ok := waitedP[i]; !ok || v != int64(i*7+prog.M[i]) {
 				rc.Violate("wait/value", "producer %d wait() gave %v (present=%v), expected %d", i, v, ok, i*7+prog.M[i])
 				return
@@ -618,6 +731,9 @@ func runC10(rc *fw.RunCtx) {
 		}
 	}
 	want := `[[5, 6], "caught:boom 77", "error", "soft 4"]`
+	if prog.DeepThread {
+		want = `[[5, 6], "caught:boom 77", "error", "soft 4", "caught-overflow"]`
+	}
 	if out.Result == nil || safeInspect(out.Result) != want {
 		rc.Violate("wait/result-or-error", "final value %s, expected %s", out.String(), want)
 		return
@@ -639,6 +755,8 @@ func runC10(rc *fw.RunCtx) {
 	}
 	if prog.NilEvery > 0 {
 		rc.Hit("linearizability_skipped_nil_payloads")
+	} else if prog.Quiet {
+		rc.Hit("linearizability_skipped_quiet_consumers")
 	} else if len(ops) <= 60 {
 		res := porcupine.CheckOperationsTimeout(queueModel, ops, 30*time.Second)
 		switch res {
